@@ -40,6 +40,7 @@ class DefaultFormatter(BaseFormatter):
         "_line_endings",
         "_decimal_places",
         "_comment_template",
+        "_comment_ending",
         "_valid_axes",
     )
 
@@ -172,6 +173,15 @@ class DefaultFormatter(BaseFormatter):
             Formatted comment string
         """
 
+        # Free text must stay inside the comment: a line break would
+        # start a new block and, for bracketed comments, the closing
+        # symbols would end the comment early.
+
+        text = " ".join(text.splitlines())
+
+        if self._comment_ending is not None:
+            text = text.replace(self._comment_ending, " ")
+
         return self._comment_template.format(text)
 
     @typechecked
@@ -240,9 +250,12 @@ class DefaultFormatter(BaseFormatter):
     def _to_comment_template(self, open_symbols: str) -> str:
         """Create a template for G-code comments."""
 
+        self._comment_ending = None
+
         if open_symbols in COMMENT_OPENINGS:
             index = COMMENT_OPENINGS.index(open_symbols)
             end_symbols = COMMENT_ENDINGS[index]
+            self._comment_ending = end_symbols
             return f"{open_symbols} {{}} {end_symbols}"
 
         return f"{open_symbols} {{}}"
